@@ -83,6 +83,9 @@ type TrackerActor struct {
 	OnAnn   func(a *Announce)
 	// ClientTimeout is the SUT's HTTP tracker time-out (to tell a cancel from a time-out).
 	ClientTimeout time.Duration
+	// RespLimit is the SUT's maximum HTTP tracker response size (0 = unknown): a client that
+	// stops reading an oversize reply before that many bytes gave up for another reason.
+	RespLimit int64
 	LatSlack      time.Duration
 	stopped       bool
 }
@@ -288,9 +291,23 @@ func (t *TrackerActor) handleHTTP(rw http.ResponseWriter, r *http.Request) {
 				break
 			}
 		}
+		endAt := simrt.Now()
 		if pair != nil {
 			time.Sleep(2 * time.Second)
 			a.ConsumedOfReply = pair.Consumed(side) - before
+			if t.RespLimit > 0 && a.ConsumedOfReply < t.RespLimit && t.ClientTimeout > 0 {
+				// The client went away before it had read as much as its own limit: not the
+				// oversize failure. A cancel (it had something else to say) or its time-out.
+				dt := endAt - a.At
+				switch {
+				case dt+t.LatSlack+300*time.Millisecond < t.ClientTimeout:
+					a.Cancelled = true
+					a.Reply += "(cancelled)"
+				default:
+					a.Ambiguous = true
+					a.Reply += "(client gone)"
+				}
+			}
 		}
 		t.record(a)
 	case "noreply":
